@@ -271,6 +271,10 @@ def real_generator(ns, mp, present, values):
 def replay(cex):
     d = cex['data']
     ns = repo.load('real')
+    # parses earlier in the same process (one rejected, one accepted) must not influence this one
+    real_generator(ns, 'ha', ['n1', 'n2', 'pmin', 'pmax'], {'numinst': 1, 'n1': 1, 'n2': 1, 'pmin': 1, 'pmax': 1})
+    real_generator(ns, 'hr', ['n1', 'n2', 'pmin', 'pmax', 'uq', 'twopl', 'n3'], {'numinst': 1, 'n1': 1, 'n2': 1, 'pmin': 1, 'pmax': 1, 'uq': 1, 'n3': 1})
+    real_generator(ns, 'ha', ['n1', 'n2', 'pmin', 'pmax', 'uq'], {'numinst': 1, 'n1': 1, 'n2': 1, 'pmin': 1, 'pmax': 1, 'uq': 1})
     out = real_generator(ns, d['mp'], d['present'], d['values'])
     exp = d['expect']
     if exp == 'accepted':
